@@ -16,7 +16,7 @@ reg("C01",
     "runtime monitoring: invariant oracle on recorded source reads and delivered tokens", "DESIGN.md section 7 C01")
 reg("C02",
     "Runtime monitor (INV/C02) on token lengths/adjacency over the C01 workload, plus the constructor accept/reject decision "
-    "checked exhaustively on a 328050-tuple integer grid against the statement's predicate.",
+    "checked exhaustively on a 623295-tuple integer grid against the statement's predicate.",
     "Trusts: 'a token of exactly max_length frames was cut' (holds for any tokenizer that cuts on reaching max_length). Grid bounded to [-2,6].",
     "runtime monitoring: invariant oracle on delivered tokens + exhaustive constructor grid", "DESIGN.md section 7 C02")
 reg("C03",
